@@ -581,4 +581,4 @@ def writer_truncation(chk, bodies, crates):
             chk.require(ok, "C16-f/writer-truncation", "%s::serialize %s" % (short, s["detail"]),
                         "the length is narrowed before it is encoded (%s): representable lengths would be written with wrong digits/bytes"
                         % why[:140], why[:100], s.get("sp"), key="C16-f/writer-truncation|%s|%s" % (style, s["detail"]))
-    chk.floor("writer cast sites", n, 5)
+    chk.floor("writer cast sites", n, 1)
